@@ -22,6 +22,7 @@ CONSTANTS
   MaxSubs,        \* number of subscribe() calls
   Timeouts,       \* BOOLEAN: connect timeouts may fire
   Sequential,     \* BOOLEAN: a new dial starts only when nothing is in flight (C10's premise)
+  Abandons,       \* BOOLEAN: the application may drop a connect() call whose dial is under way
   Limits,         \* Limits[n]: max_concurrent_connections or NoLimit
   Affs            \* Affs[n][p]: affinity n has configured for p ("None" if unknown)
 
@@ -79,7 +80,16 @@ Settled ==
 Dial(d, l) ==
   /\ Len(att) < MaxAtt
   /\ Sequential => Settled
-  /\ att' = Append(att, [d |-> d, l |-> l, ds |-> "tls", ls |-> "none", cnt |-> -1, v |-> "none"])
+  /\ att' = Append(att, [d |-> d, l |-> l, ds |-> "tls", ls |-> "none", cnt |-> -1, v |-> "none", ab |-> FALSE])
+  /\ UNCHANGED <<vars, done, replies, subs, nDisc>>
+
+(* the application loses interest in a connect() call (drops the future) before it was      *)
+(* answered: the dial is the network's business and goes on regardless - nothing changes but *)
+(* that nobody is told the result                                                            *)
+AbandonCall(k) ==
+  /\ Abandons /\ ~att[k].ab
+  /\ \A r \in replies : r.g # k
+  /\ att' = [att EXCEPT ![k].ab = TRUE]
   /\ UNCHANGED <<vars, done, replies, subs, nDisc>>
 
 (* handle_incoming_task: TLS finished on the listener (the dialer finished  *)
@@ -159,7 +169,7 @@ MgrConsume(n) ==
      /\ IF r.ok
         THEN ApAdd(n, p, r.g, r.side)
         ELSE UNCHANGED connVars
-     /\ replies' = IF r.side = "out"
+     /\ replies' = IF r.side = "out" /\ ~att[r.g].ab
                    THEN replies \cup {[n |-> n, g |-> r.g, ok |-> r.ok,
                                        listed |-> r.ok /\ p \in DOMAIN active'[n]]}
                    ELSE replies
@@ -191,6 +201,7 @@ Next ==
   \/ \E k \in Gids :
         \/ ListenerTls(k) \/ Admit(k) \/ Reject(k) \/ DialerGetsAck(k) \/ ListenerConfirmed(k)
         \/ DialerSeesClose(k) \/ ListenerSeesClose(k) \/ DialerTimeout(k) \/ ListenerTimeout(k)
+        \/ AbandonCall(k)
   \/ \E n \in Nodes :
         \/ MgrConsume(n)
         \/ \E k \in Gids : HandlerExit(n, k)
